@@ -3,6 +3,8 @@
 OUT=${1:-/tmp/baseline.junit.xml}
 cd /repo && /venv/bin/python -m pytest -ra -q -p no:cacheprovider --timeout=900 --continue-on-collection-errors -n ${JOBS:-8} --junitxml=$OUT >/tmp/baseline.log 2>&1
 tail -3 /tmp/baseline.log
+# tests/unit/test_gates_are_wired.py (not in the stable set: needs uv) leaves this probe behind in the tree
+rm -f /repo/compat_corpus.py
 /venv/bin/python - "$OUT" <<'PY'
 import json, sys, xml.etree.ElementTree as ET
 base = set(json.load(open('/root/.vp/BASELINE.json'))['stable_pass'])
